@@ -100,10 +100,10 @@ def teardown(ctx):
 
 
 def cases(ctx):
-    n = 2400 if ctx.tier == 'quick' else 100000
+    n = 2400 if ctx.tier == 'quick' else 500000
     for b in range(n // 20):
         yield {'kind': 'calc', 'batch': b}
-    for b in range(6 if ctx.tier == 'quick' else 200):
+    for b in range(6 if ctx.tier == 'quick' else 1000):
         yield {'kind': 'emb', 'batch': b}
 
 
